@@ -263,12 +263,18 @@ func (e *endPoint) Close() error {
 // the Consumer.
 func (e *endPoint) RemoveHandler(id int) error {
 	e.handlersMutex.Lock()
-	defer e.handlersMutex.Unlock()
 	if id >= 0 && id < len(e.handlers) && e.handlers[id] != nil {
-		e.handlers[id].closeWith(nil)
+		h := e.handlers[id]
 		e.handlers[id] = nil
+		e.handlersMutex.Unlock()
+		// the handler is out of the table: nothing is sent to it
+		// anymore. Its close callback runs without the lock, since
+		// it may use the end point (the termination hook of a client
+		// side object which removes another object, or makes a call).
+		h.closeWith(nil)
 		return nil
 	}
+	e.handlersMutex.Unlock()
 	return fmt.Errorf("invalid handler id: %d", id)
 }
 
